@@ -69,15 +69,15 @@ Proof. intros H. apply tokp_bal, tokp_quote_or_nil, H. Qed.
 Lemma addr_struct_tok a s : clean a = true -> addr_struct a = Some s -> tokp s.
 Proof.
   unfold addr_struct. intros Ha.
-  set (ne := if contains a ["<"%char] && contains a [">"%char] then _ else _).
+  set (ne := match index a ["<"%char] with Some _ => _ | None => _ end).
   assert (Hne : forall n e, ne = Some (n, e) -> clean n = true /\ clean e = true).
-  { subst ne. intros n e. destruct (contains a ["<"%char] && contains a [">"%char]).
-    - destruct (index a ["<"%char]) as [st_|]; [|discriminate].
-      destruct (index a [">"%char]) as [en|]; [|discriminate].
-      destruct (slice a (Z.of_nat st_ + 1) (Z.of_nat en)) as [email|] eqn:Es; [|discriminate].
-      intros E. injection E as <- <-. split.
-      + unfold trim. apply forallb_trim_f, clean_trim_space. now apply forallb_firstn.
-      + eapply forallb_slice; eassumption.
+  { subst ne. intros n e. destruct (index a ["<"%char]) as [st_|].
+    - destruct (index (skipn st_ a) [">"%char]) as [en|].
+      + destruct (slice a (Z.of_nat st_ + 1) (Z.of_nat (en + st_))) as [email|] eqn:Es; [|discriminate].
+        intros E. injection E as <- <-. split.
+        * unfold trim. apply forallb_trim_f, clean_trim_space. now apply forallb_firstn.
+        * eapply forallb_slice; eassumption.
+      + intros E. injection E as <- <-. split; [reflexivity|exact Ha].
     - intros E. injection E as <- <-. split; [reflexivity|exact Ha]. }
   destruct ne as [[n e]|]; [|discriminate].
   destruct (Hne n e eq_refl) as [Hn He].
